@@ -92,7 +92,7 @@ theorem releaseLock_active {w : World} {o : Nat} {m : MutexSt}
           threads := { w.exec.threads with threads :=
             (w.exec.threads.threads.mapIdx fun i th =>
               if i = w.tid then th
-              else if th.operation.any (fun op => op.obj == o) then th.setRunnable else th) } } } := by
+              else if th.operation.any (fun op => op.obj == o) then th.wake else th) } } } := by
   unfold World.releaseLock
   have ha' : (w.setObj o (.mutex { m with lock := none })).ths.isActive = true := ha
   simp only [getMutex_of h, ha', bind, Except.bind, pure, Except.pure, Bool.not_true,
